@@ -870,9 +870,11 @@ def _sig(s):
 class Spec:
     props_module = "Mhd.Props.C14"
     lean_targets = ["Mhd.Props.C14", "drv_auth"]
-    required_theorems = ["Mhd.C14.digest_roundtrip", "Mhd.C14.algo_quoting_invariant", "Mhd.C14.qop_quoting_invariant",
-                         "Mhd.C14.basic_roundtrip", "Mhd.C14.basic_garbage_rejected", "Mhd.C14.basic_invalid_base64_rejected",
-                         "Mhd.C14.digest_no_fault", "Mhd.C14.digest_fault_sites", "Mhd.C14.digest_term_irrelevant"]
+    required_theorems = ["Mhd.C14.digest_roundtrip", "Mhd.C14.digest_rendering_invariant",
+                         "Mhd.C14.algo_quoting_invariant", "Mhd.C14.qop_quoting_invariant", "Mhd.C14.userhash_quoting_invariant",
+                         "Mhd.C14.digest_no_fault", "Mhd.C14.digest_fault_sites", "Mhd.C14.digest_term_irrelevant",
+                         "Mhd.C14.basic_roundtrip", "Mhd.C14.basic_nocolon", "Mhd.C14.basic_invalid_base64_rejected",
+                         "Mhd.C14.basic_token_exact", "Mhd.C14.basic_garbage_rejected"]
     trusted_base = ["Lean 4 kernel", "axioms: propext, Classical.choice, Quot.sound at most (audited per theorem)",
                     "hand-written model lean/Mhd/Model/Auth{Str,,Info}.lean tied to gen_auth.c/basicauth.c/digestauth.c/mhd_str.c "
                     "by this run's correspondence",
